@@ -83,15 +83,17 @@ end
 def encFloat (x : Float) : Sexp := .atom (toString x.toBits.toNat)
 def encRat (q : Rat) : Sexp := .str (toString q.num ++ "/" ++ toString q.den)
 
-def handleRun (gr k rej script fuel : Sexp) : Option Sexp := do
+def handleRun (gr k rej script fuel fixM mulFirst : Sexp) : Option Sexp := do
+  let fixM ← fixM.bool?
+  let mulFirst ← mulFirst.bool?
   let G ← decGram gr
   let k ← k.nat?
   let rejected ← allSome decProg (← rej.list?)
   let acts ← allSome decAct (← script.list?)
   let fuel ← fuel.nat?
   let filt : Prog → Bool := fun p => !rejected.contains p
-  let EF : Env Float := { A := floatArith, G := G, k := k, filter := filt }
-  let ER : Env Rat := { A := ratArith, G := G, k := k, filter := filt }
+  let EF : Env Float := { A := { floatArith with mulFirst := mulFirst }, G := G, k := k, filter := filt, fixM := fixM }
+  let ER : Env Rat := { A := { ratArith with mulFirst := mulFirst }, G := G, k := k, filter := filt, fixM := fixM }
   let rf : Sexp := match (Gen.new EF).bind fun g => runScript EF fuel acts g [] with
     | none => .list [.atom "undef"]
     | some (g, out) => report encFloat g out
@@ -154,21 +156,24 @@ def runQ (A : Arith α) (enc : α → Sexp) : List QAct → Q α → Nat → Lis
     | .clear => runQ A enc rest q.clear (i + 1) out
 end
 
-def handleQueue (maxi k script : Sexp) : Option Sexp := do
+def handleQueue (maxi k script mulFirst : Sexp) : Option Sexp := do
+  let mulFirst ← mulFirst.bool?
+  let fA : Arith Float := { floatArith with mulFirst := mulFirst }
+  let rA : Arith Rat := { ratArith with mulFirst := mulFirst }
   let maxi ← maxi.int?
   let k ← k.nat?
   let acts ← allSome decQAct (← script.list?)
-  let rf := match Q.new floatArith maxi k with
+  let rf := match Q.new fA maxi k with
     | none => .list [.atom "undef", ofNat 0]
-    | some q => runQ floatArith encFloat acts q 0 []
-  let rr := match Q.new ratArith maxi k with
+    | some q => runQ fA encFloat acts q 0 []
+  let rr := match Q.new rA maxi k with
     | none => .list [.atom "undef", ofNat 0]
-    | some q => runQ ratArith encRat acts q 0 []
+    | some q => runQ rA encRat acts q 0 []
   pure (.list [rf, rr])
 
 def handle : Sexp → Option Sexp
-  | .list [.atom "cd.run", gr, k, rej, script, fuel] => handleRun gr k rej script fuel
-  | .list [.atom "cd.queue", maxi, k, script] => handleQueue maxi k script
+  | .list [.atom "cd.run", gr, k, rej, script, fuel, fixM, mulFirst] => handleRun gr k rej script fuel fixM mulFirst
+  | .list [.atom "cd.queue", maxi, k, script, mulFirst] => handleQueue maxi k script mulFirst
   | _ => none
 
 end PS.C95
